@@ -376,6 +376,19 @@ pub fn spools() -> &'static SPools {
             p.mul_assign(FrRepr(*a));
             g1.push(p.into_affine());
         }
+        // the same subgroup points again, to be given projective forms with a Z of special shape
+        let mut m1 = Fq::one();
+        m1.negate();
+        let mut two = Fq::one();
+        two.double();
+        let mut m2 = two;
+        m2.negate();
+        let g1_special: Vec<(usize, Fq)> = vec![(1, m1), (4, two), (5, m2)];
+        let g1_special_at = g1.len();
+        for (src, _) in &g1_special {
+            let q = g1[*src];
+            g1.push(q);
+        }
         let g1_nsub = g1.len();
         for (c, _) in io_gen::pools().g1_nonsub.iter().take(2) {
             let mut e = G1Compressed::empty();
@@ -385,10 +398,10 @@ pub fn spools() -> &'static SPools {
         for (i, p) in g1.iter().enumerate() {
             if p.is_zero() {
                 g1p.push(G1::zero());
-            } else if i % 2 == 1 {
+            } else if i % 2 == 1 && !(i >= g1_special_at && i < g1_special_at + g1_special.len()) {
                 g1p.push(p.into_projective());
             } else {
-                let z = fq_rng(&mut rng);
+                let z = if i >= g1_special_at && i < g1_special_at + g1_special.len() { g1_special[i - g1_special_at].1 } else { fq_rng(&mut rng) };
                 let mut z2 = z;
                 z2.square();
                 let mut z3 = z2;
@@ -408,6 +421,18 @@ pub fn spools() -> &'static SPools {
             p.mul_assign(FrRepr(*a));
             g2.push(p.into_affine());
         }
+        let zr = fq2_rng(&mut rng);
+        let g2_special: Vec<(usize, Fq2)> = vec![
+            (1, Fq2 { c0: Fq::zero(), c1: Fq::one() }),
+            (4, Fq2 { c0: Fq::zero(), c1: zr.c1 }),
+            (5, Fq2 { c0: zr.c0, c1: Fq::zero() }),
+            (2, Fq2 { c0: m1, c1: Fq::zero() }),
+        ];
+        let g2_special_at = g2.len();
+        for (src, _) in &g2_special {
+            let q = g2[*src];
+            g2.push(q);
+        }
         let g2_nsub = g2.len();
         for (c, _) in io_gen::pools().g2_nonsub.iter().take(2) {
             let mut e = G2Compressed::empty();
@@ -417,10 +442,10 @@ pub fn spools() -> &'static SPools {
         for (i, p) in g2.iter().enumerate() {
             if p.is_zero() {
                 g2p.push(G2::zero());
-            } else if i % 2 == 1 {
+            } else if i % 2 == 1 && !(i >= g2_special_at && i < g2_special_at + g2_special.len()) {
                 g2p.push(p.into_projective());
             } else {
-                let z = fq2_rng(&mut rng);
+                let z = if i >= g2_special_at && i < g2_special_at + g2_special.len() { g2_special[i - g2_special_at].1 } else { fq2_rng(&mut rng) };
                 let mut z2 = z;
                 z2.square();
                 let mut z3 = z2;
